@@ -184,12 +184,14 @@ class PFDLTreeVisitor(PFDLParserVisitor):
         self, ctx: PFDLParser.Call_inputContext
     ) -> List[Union[str, List[str], Struct]]:
         input_params = []
-        for child in ctx.parameter():
-            parameter = self.visitParameter(child)
-            input_params.append(parameter)
-        for child in ctx.struct_initialization():
-            struct = self.visitStruct_initialization(child)
-            input_params.append(struct)
+        # keep the source order: variables and struct literals may be mixed
+        for child in ctx.children:
+            if isinstance(child, PFDLParser.ParameterContext):
+                parameter = self.visitParameter(child)
+                input_params.append(parameter)
+            elif isinstance(child, PFDLParser.Struct_initializationContext):
+                struct = self.visitStruct_initialization(child)
+                input_params.append(struct)
         return input_params
 
     def visitCall_output(self, ctx: PFDLParser.Call_outputContext) -> Dict[str, Union[str, Array]]:
